@@ -73,6 +73,8 @@ impl PartialEq for Value {
                         true
                     }
                 }
+                // keep `==` symmetric: an arglist compares equal to a comma separated list
+                Value::ArgList(..) => other == self,
                 _ => false,
             },
             Value::Null => matches!(other, Value::Null),
